@@ -174,9 +174,22 @@ class Walker:
             st.env[fn.vararg] = Sym('*' + fn.vararg)
         if fn.node.args.kwarg:
             st.env[fn.node.args.kwarg.arg] = Sym('**' + fn.node.args.kwarg.arg)
+        ctx = _Ctx(self, fn, opts)
+        for p, d in self.extension_defaults(fn).items():
+            # a parameter the documented API does not have (and no package call passes): analysed at its default
+            try:
+                ctx.class_scope = True
+                v = ctx.ev(d, st)
+            except Exception:
+                continue
+            finally:
+                ctx.class_scope = False
+            if not st.events and isinstance(v, (Const, Num, Sym)):
+                st.env[p] = v
+            else:
+                del st.events[:]
         if init_env:
             st.env.update(init_env)
-        ctx = _Ctx(self, fn, opts)
         states = ctx.block(body if body is not None else fn.body, [st])
         out = []
         for s in states:
@@ -185,6 +198,129 @@ class Walker:
         self.stats['functions_walked'] += 1
         self.stats['paths'] += len(out)
         return out
+
+    # ------------------------------------------------------------------ extension parameters
+    _SIGS = None
+
+    def class_constant(self, ci, name: str):
+        """The AST of `NAME = <literal>` in the body of `ci` or a base class, when nothing in the package ever stores to an
+        attribute of that name (so `Cls.NAME`, `self.NAME` and a bare NAME in a default expression all read the literal)."""
+        if not hasattr(self, '_attr_stores'):
+            self._attr_stores = set()
+            for mi in self.prog.modules.values():
+                for n in ast.walk(mi.tree):
+                    if isinstance(n, ast.Attribute) and isinstance(n.ctx, (ast.Store, ast.Del)):
+                        self._attr_stores.add(n.attr)
+                    elif isinstance(n, ast.Call) and isinstance(n.func, ast.Name) and n.func.id in ('setattr', 'delattr') and len(n.args) >= 2:
+                        self._attr_stores.add(n.args[1].value if isinstance(n.args[1], ast.Constant) else '*')
+        if name in self._attr_stores or '*' in self._attr_stores and False:
+            return None
+        for c in self.prog.mro(ci):
+            v = c.class_assigns.get(name)
+            if v is None:
+                continue
+            if isinstance(v, ast.Constant) or (isinstance(v, ast.UnaryOp) and isinstance(v.op, ast.USub) and isinstance(v.operand, ast.Constant)):
+                return v
+            return None
+        return None
+
+    def _sigs(self):
+        if Walker._SIGS is None:
+            import json, os
+            try:
+                Walker._SIGS = json.load(open(os.path.join(os.path.dirname(os.path.abspath(__file__)), 'signatures.json')))
+            except Exception:
+                Walker._SIGS = {}
+        return Walker._SIGS
+
+    def is_new_function(self, fn: FuncInfo) -> bool:
+        """A module-level function or method the pinned API does not have and that does not override an inherited method: an
+        implementation detail of (or an addition to) the documented functions, treated like a private helper - walked inline,
+        and its writes attributed to the documented functions that call it."""
+        sigs = self._sigs()
+        if not sigs or fn.parent is not None or fn.qualname.split('@')[0] in sigs:
+            return False
+        if fn.name.startswith('__') and fn.name.endswith('__'):
+            return False            # a new dunder changes the behaviour of operators on the documented classes
+        if fn.cls is not None:
+            if fn.is_property or fn.is_setter:
+                return False
+            for c in self.prog.mro(fn.cls):
+                if c is not fn.cls and fn.name in getattr(c, 'methods', {}):
+                    return False
+        return True
+
+    def extension_defaults(self, fn: FuncInfo) -> Dict[str, ast.expr]:
+        """Parameters of `fn` that the pinned API does not have (sa/signatures.json), that carry a default, and that no call inside
+        the package passes: the properties quantify over the documented API, so `fn` is analysed with them at their defaults.  A
+        parameter some package call passes stays symbolic - its non-default behaviour is reachable from the documented API."""
+        known = self._sigs().get(fn.qualname.split('@')[0])
+        if known is None:
+            return {}
+        if not hasattr(self, '_passed'):
+            # every call of the package by callee name: (call node, enclosing function or None)
+            self._passed = {}
+            encl = {}
+            for fi in sorted(self.prog.all_functions, key=lambda f: f.node.lineno):
+                for n in ast.walk(fi.node):
+                    if isinstance(n, ast.Call):
+                        encl[id(n)] = fi            # inner functions start later: they override the enclosing one
+            for mi in self.prog.modules.values():
+                for c in ast.walk(mi.tree):
+                    if isinstance(c, ast.Call):
+                        nm = c.func.attr if isinstance(c.func, ast.Attribute) else (c.func.id if isinstance(c.func, ast.Name) else None)
+                        if nm is not None:
+                            self._passed.setdefault(nm, []).append((c, encl.get(id(c))))
+            self._ext_busy = set()
+        key = fn.qualname
+        if key in self._ext_busy:
+            return {}
+        self._ext_busy.add(key)
+        try:
+            out = {}
+            names = [fn.name] + ([fn.cls.name] if fn.name == '__init__' and fn.cls is not None else [])
+            a = fn.node.args
+            pos = [x.arg for x in a.posonlyargs + a.args]
+            bound = fn.cls is not None and not fn.is_static        # the receiver is not among a call's arguments
+            for p in fn.params + fn.kwonly:
+                if p in known:
+                    continue
+                d = fn.param_default(p)
+                if d is None:
+                    continue
+                passed = False
+                for nm in names:
+                    for c, ef in self._passed.get(nm, ()):
+                        vals = [k.value for k in c.keywords if k.arg == p]
+                        if any(k.arg is None for k in c.keywords) or any(isinstance(x, ast.Starred) for x in c.args):
+                            passed = True
+                        if p in pos:
+                            i = pos.index(p) - (1 if bound else 0)
+                            if 0 <= i < len(c.args):
+                                vals.append(c.args[i])
+                        for v in vals:
+                            if not self._forwards_default(v, ef, d):
+                                passed = True
+                if not passed:
+                    out[p] = d
+            return out
+        finally:
+            self._ext_busy.discard(key)
+
+    def _forwards_default(self, v: ast.expr, ef: Optional[FuncInfo], d: ast.expr) -> bool:
+        """The argument is the callee's own default, or the caller's extension parameter of the same default passed through."""
+        if ast.dump(v) == ast.dump(d) and isinstance(v, ast.Constant):
+            return True
+        if ef is None or not isinstance(v, ast.Name) or v.id not in ef.params + ef.kwonly:
+            return False
+        for n in ast.walk(ef.node):
+            if isinstance(n, ast.Name) and n.id == v.id and isinstance(n.ctx, (ast.Store, ast.Del)):
+                return False
+        d2 = ef.param_default(v.id)
+        if d2 is None or ast.dump(d2) != ast.dump(d) or v.id in (self._sigs().get(ef.qualname.split('@')[0]) or [v.id]):
+            return False
+        # coinductive: a cycle of calls that only pass the default along never produces another value
+        return ef.qualname in self._ext_busy or v.id in self.extension_defaults(ef)
 
     def is_abstract(self, fn: FuncInfo) -> bool:
         """A hook meant to be overridden outside the package: body is `pass` or `raise NotImplementedError`."""
@@ -615,7 +751,8 @@ class _Ctx:
             return None         # a generator function: calling it runs nothing; its body runs in the loop that consumes it
         wanted = callee.qualname in self.opts.inline_full or \
             ('<private>' in self.opts.inline_full and callee.name.startswith('_') and not callee.name.startswith('__')
-             and callee.parent is None)
+             and callee.parent is None) or \
+            ('<private>' in self.opts.inline_full and self.w.is_new_function(callee))
         if not wanted or callee.qualname in self.inline_stack or callee.qualname == self.fn.qualname or \
                 callee.name in self.opts.no_full_inline:
             return None
@@ -1784,6 +1921,11 @@ class _Ctx:
                 return Sym(f"{m.name}.{name}")
         if e.id in ('True', 'False', 'None'):
             return Const({'True': True, 'False': False, 'None': None}[e.id])
+        if getattr(self, 'class_scope', False) and self.fn.cls is not None:
+            # a default expression is evaluated in the class body's scope
+            cv = self.w.class_constant(self.fn.cls, e.id)
+            if cv is not None and e.id in self.fn.cls.class_assigns:
+                return self.ev(cv, st)
         return Sym(e.id)
 
     def ex_Attribute(self, e, st):
@@ -1797,6 +1939,10 @@ class _Ctx:
                     mem = self.prog.enum_members(ci)
                     if name in mem and isinstance(mem[name], int):
                         return Num(Fraction(mem[name]))
+                else:
+                    cv = self.w.class_constant(ci, name)
+                    if cv is not None:
+                        return self.ev(cv, st)
                 # fall through to a symbolic class attribute
             elif k == 'ext':
                 return Sym(o)
@@ -1827,6 +1973,11 @@ class _Ctx:
             ci = bt[1]
         elif bt and bt[0] == 'cls':
             ci = self.prog.metaclass_of(bt[1])
+        if bt and bt[0] in ('inst', 'cls') and self.ti.field_owner(bt[1], e.attr) is None and not self.prog.is_enum(bt[1]) \
+                and not self.prog.lookup_method(bt[1], e.attr):
+            cv = self.w.class_constant(bt[1], e.attr)
+            if cv is not None:
+                return self.ev(cv, st)      # self.NAME / cls.NAME: a class-level named constant
         if ci is not None and self.ti.field_owner(ci, e.attr) is None:
             pf = self._property_field(ci, e.attr)
             if pf is not None:
@@ -2128,6 +2279,7 @@ class _Ctx:
                         continue
                     return None
                 sub_ctx = _Ctx(self.w, callee, self.opts, self.inline_stack)
+                sub_ctx.class_scope = True
                 env[p] = sub_ctx.ev(d, State())
         if callee.vararg and callee.vararg not in env:
             env[callee.vararg] = TupleT(())
